@@ -17,7 +17,7 @@ def run(ck):
         'hand-over of left-over BufReader bytes to the tunnel (drain_buffers; C01)',
     ]
     codec.spec_read_head(ck)
-    codec.spec_stream_frame_reader(ck, nreads=3 if ck.tier == 'quick' else 5)
+    codec.spec_stream_frame_reader(ck, nreads=3 if ck.tier == 'quick' else 5, with_history=True)
     codec.spec_socks_request_reader(ck, 'NoAuth')
     codec.spec_socks_response_reader(ck)
     codec.spec_socks_request_roundtrip(ck, 5)
